@@ -152,7 +152,31 @@ def check_cell(rec, W, cell):
         c = [0]
         cbs.append(c)
         r.call_on_close(lambda c=c: c.__setitem__(0, c[0] + 1))
-    if inspect and kind not in ("fw", "wrapfile"):
+    if inspect and kind not in ("fw", "wrapfile") and isinstance(status, str) and loc is None:
+        # other ways an application looks at / replaces the body before it is sent
+        how = ("freeze", "get_data", "set_data", "iter_encoded")[(ncb + len(str(status)) + METHODS.index(method)) % 4]
+        if how == "freeze" and kind == "closable":
+            how = "get_data"  # freeze() drops the original iterable without closing it; freeze is outside the property's quantifier (observation only)
+        if how == "freeze":
+            r.freeze()
+        if how == "get_data":
+            if r.get_data() != expected:
+                rec.violation("C05/get_data-differs", f"{cell}: {r.get_data()!r}", case, monitor="body")
+                return
+        elif how == "set_data":
+            r.set_data(r.get_data())
+        else:
+            got_enc = b"".join(r.iter_encoded()) if kind not in ("gen", "genstr", "closable") else None
+            if got_enc is not None and got_enc != expected:
+                rec.violation("C05/iter_encoded-differs", f"{cell}: {got_enc!r}", case, monitor="body")
+                return
+        rec.observe("pre_op:" + how)
+        if how in ("freeze", "set_data") and cl is None:
+            hv = r.headers.get("Content-Length")
+            if hv is not None and int(hv) != len(expected):
+                rec.violation("C05/H2-content-length-mismatch", f"{cell}: after {how}() Content-Length {hv} vs {len(expected)} bytes", case, monitor="H2")
+                return
+    elif inspect and kind not in ("fw", "wrapfile"):
         n = r.calculate_content_length()
         if n is not None and n != len(expected):
             rec.violation("C05/H2-calculate_content_length-wrong", f"{cell}: calculate_content_length() = {n}, body is {len(expected)} bytes", case, monitor="H2")
